@@ -394,10 +394,12 @@ func main() {
 	chainsim.Main(chainsim.CheckSpec{
 		ID:    "C08",
 		Level: "exploration",
-		Rule: "each case is one generated block history with valid and single-respect-invalid transactions of staking, registry, governance (nonce, signature, balance, gas limit, authority, malformed body, unknown method) plus gas sweeps (a valid transaction re-issued with every gas limit 0..min(size+40,700)); the proposal state is dumped before/after every delivered transaction: a failing one must leave an empty diff (rejected at/before authentication per the independent model) or exactly nonce+1/balance-fee of the signer; " +
+		Rule: "each case is one generated block history with valid and single-respect-invalid transactions of staking, registry, governance, vault, roothash and (profile keymanager: a test key manager runtime with key manager nodes) all key manager methods up to their success paths (nonce, signature, balance, gas limit, authority, malformed body, unknown method) plus gas sweeps (a valid transaction re-issued with every gas limit 0..min(size+40,700)); the proposal state is dumped before/after every delivered transaction: a failing one must leave an empty diff (rejected at/before authentication per the independent model) or exactly nonce+1/balance-fee of the signer; " +
 			"CheckTx+EstimateGas bursts after every block must not change the committed state; twin replicas re-execute sampled blocks with/without a failing zero-fee transaction; non-trivial = history with >=10 failed-after-authentication and >=10 rejected transactions",
 		Cases: func(r *evid.Run) []chainsim.Case {
-			return chainsim.StdCases(r.Seed, r.Pick(64, 1600), r.Pick(50, 100), []string{"default", "registry", "hostile", "election"})
+			cs := chainsim.StdCases(r.Seed, r.Pick(64, 1600), r.Pick(50, 100), []string{"default", "registry", "hostile", "election"})
+			// Key manager traffic (secrets and CHURP methods on a test key manager runtime).
+			return chainsim.WithExtraCases(cs, r.Seed, r.Pick(8, 200), "keymanager")
 		},
 		RunCase: runCase,
 		Floor:   10,
